@@ -922,7 +922,7 @@ func plantInsertRange(t *rapid.T, a, b *State) string {
 	res := "plantInsertRange"
 	// A remark inside the run, between the run's first line and the old
 	// place of L, at the same place on both sides.
-	if rapid.Bool().Draw(t, "plantRemark") {
+	if rapid.IntRange(0, 3).Draw(t, "plantRemark") != 0 {
 		p := rapid.IntRange(j+1, at).Draw(t, "plantRemarkAt")
 		q := -1
 		for x, e := range nb {
@@ -1060,7 +1060,7 @@ func GenPair(t *rapid.T, o GenOpts) *Pair {
 		p.B.Crypto = map[string][]*CryptoEntry{}
 		p.Ops = append(p.Ops, "routingOnlyTarget")
 	}
-	if p.Mode == "derived" && rapid.IntRange(0, 7).Draw(t, "plant") == 0 {
+	if p.Mode == "derived" && rapid.IntRange(0, 3).Draw(t, "plant") == 0 {
 		p.Ops = append(p.Ops, plantInsertRange(t, p.A, p.B))
 	}
 	if p.Mode == "derived" && rapid.IntRange(0, 11).Draw(t, "plantRemarkOnly") == 0 {
